@@ -657,6 +657,10 @@ func (c *codegen) pickVarsFromNodes(nodes []nodeContext, markAsUsed func(name st
 				switch n := node.(type) {
 				case *ast.KeyValueExpr: // var _ = f() + CustomInt{Int: Unused}.Int + 3 => mark Unused as "used".
 					nextExprToCheck = append(nextExprToCheck, val.derive(n.Value))
+					if _, isFieldName := n.Key.(*ast.Ident); !isFieldName || c.typeInfo.Types[n.Key].Type != nil {
+						// map[string]int{Unused: 1} => mark Unused as "used"; a struct field name has no type of its own.
+						nextExprToCheck = append(nextExprToCheck, val.derive(n.Key))
+					}
 					return false
 				case *ast.CallExpr:
 					switch t := n.Fun.(type) {
